@@ -248,6 +248,87 @@ def sym_Eband():
     return H.trace_zero(got.val - want.val), "get_Eband != sum_k wk sum_s tr(Y^H H Y)"
 
 
+def sym_get_psi():
+    """get_psi: psi = Y D with D the unitary eigenvector matrix of mu = Y^H H Y: psi^H O psi = 1, psi^H H psi = Lam (real diagonal), same
+    span as Y; get_epsilon returns the (ascending) eigenvalues of the same mu, and mixing the input orbitals with an invertible M changes
+    orth(W) only by a unitary R (so that mu -> R^H mu R has the same eigenvalues: lemma 'similarity')."""
+    # H by its contract (C05.H.additive_homogeneous / C05.H.hermitian): a fixed Hermitian linear map per (k, spin)
+    ld, scf, at, pots, dft = _grad_env()
+    pots = {}
+    R.Backend.eigh_indefinite = True
+    try:
+        W = [H.W_stack("W", ik, 2) for ik in range(2)]
+        Y = dft.orth(at, W)
+        psi = dft.get_psi(scf, W, **pots)
+        eps = dft.get_epsilon(scf, W, **pots)
+        for ik in range(2):
+            for s in range(2):
+                y = Y[ik].parts[s]
+                p = psi[ik].parts[s] if isinstance(psi[ik], NStack) else psi[ik][s]
+                if p is None:
+                    return False, "eigenstates of a spin channel are not assigned"
+                if not same(inner(p, at.O(p)), ident()):
+                    return False, f"psi^H O psi != 1 (ik={ik}, spin={s})"
+                Hp = dft.H(scf, ik, s, psi, **pots)
+                sub = inner(p, Hp)
+                e = eps[ik][s]
+                if e is None or not isinstance(e, NArr):
+                    return False, f"get_epsilon returns no eigenvalues for (ik={ik}, spin={s})"
+                ev = nc.normalise(e.val)
+                if len(ev.t) != 1 or len(list(ev.t)[0]) != 1 or not (list(ev.t)[0][0].diag and list(ev.t)[0][0].real):
+                    return False, "get_epsilon does not return the real diagonal of an eigen-decomposition"
+                Lam = NArr(e.val, (NST, NST))
+                # psi = Y D: (1) D unitary, (2) D (psi^H H psi) D^H = mu, (3) mu = D Lam D^H  =>  psi^H H psi = Lam (real, diagonal)
+                Dm = inner(y, at.O(p))
+                mu = inner(y, dft.H(scf, ik, s, Y, **pots))
+                if not same(inner(Dm, Dm), ident()) or not same(Dm @ Dm.conj().T, ident()):
+                    return False, f"the rotation from orth(W) to the eigenstates is not unitary (ik={ik}, spin={s})"
+                if not same(Dm @ sub @ Dm.conj().T, mu):
+                    return False, f"psi^H H psi is not the subspace Hamiltonian in the rotated basis (ik={ik}, spin={s})"
+                if not same(mu, Dm @ Lam @ Dm.conj().T):
+                    return False, f"the eigenvalues get_epsilon returns do not diagonalise Y^H H Y with the rotation of get_psi (ik={ik}, spin={s})"
+                if not same(p @ p.conj().T, y @ y.conj().T):
+                    return False, "the eigenstates do not span the space of the orthonormalised input orbitals"
+        # invertible mixing: orth(W M) = orth(W) R with R unitary
+        ik, s = 0, 0
+        m = nc.ctx().atom("Mix", NST, NST, kind="invertible")
+        M = NArr(NC.of(m), (NST, NST))
+        w = W[ik].parts[s]
+        y = dft.orth(at, w)
+        y2 = dft.orth(at, w @ M)
+        Rm = inner(y, at.O(y2))
+        if not same(y @ Rm, y2):
+            return False, "orth(W M) is not orth(W) R with R = orth(W)^H O orth(W M)"
+        if not same(inner(Rm, Rm), ident()):
+            return False, "the matrix relating orth(W M) to orth(W) is not unitary"
+    finally:
+        R.Backend.eigh_indefinite = False
+    return True, ""
+
+
+def nat_get_psi(rng):
+    from eminus.dft import H as Hn, get_epsilon, get_psi
+
+    scf, at = _native_scf(Nspin=2, xc="lda,pw", atom="Ne")
+    W = [rnd(rng, 2, len(at.Gk2c[ik]), at.occ.Nstate) for ik in range(at.kpts.Nk)]
+    pre = scf._precomputed if hasattr(scf, "_precomputed") else {}
+    psi = get_psi(scf, W, **pre)
+    eps = np.asarray(get_epsilon(scf, W, **pre))
+    Wm = [w @ (np.eye(w.shape[-1]) + 0.4 * rnd(rng, w.shape[-1], w.shape[-1])) for w in W]
+    eps2 = np.asarray(get_epsilon(scf, Wm, **pre))
+    err = float(np.abs(eps - eps2).max())
+    err = max(err, float(np.max(np.diff(eps, axis=-1) < -1e-12)))
+    for ik in range(at.kpts.Nk):
+        for s in range(2):
+            p = np.asarray(psi[ik][s])
+            n = p.shape[-1]
+            err = max(err, float(np.abs(p.conj().T @ at.O(p) - np.eye(n)).max()))
+            hp = np.asarray(Hn(scf, ik, s, psi, **pre))
+            sub = p.conj().T @ hp
+            err = max(err, float(np.abs(sub - np.diag(np.diag(sub))).max()), float(np.abs(np.sort(np.diag(sub).real) - eps[ik, s]).max()))
+    return err
+
+
 def nat_Eband(rng):
     from eminus.dft import get_epsilon
     from eminus.energies import get_Eband
@@ -655,6 +736,9 @@ def _register():
         ("C05", "C05.H.hermitian", sym_H_hermitian, nat_H_hermitian, [f"{dft}:H", "eminus.gth:calc_Vnonloc", "eminus.operators:L",
                                                                       "eminus.operators:I", "eminus.operators:Idag"],
          N_ + ("fft", "callee-contract"), "<a|H b> = <H a|b> for real local potentials and symmetric GTH coupling matrices (LDA-type potentials)"),
+        ("C05", "C05.get_psi_get_epsilon.subspace_diagonalisation", sym_get_psi, nat_get_psi, [f"{dft}:get_psi", f"{dft}:get_epsilon", f"{dft}:orth", f"{dft}:H"],
+         N_ + ("eigh", "sqrtm", "inv", "similarity", "interlacing", "callee-contract"),
+         "get_psi: orthonormal rotation of orth(W) that diagonalises Y^H H Y; get_epsilon: its ascending eigenvalues; orth(W M) = orth(W) R with R unitary for invertible M"),
         ("C05", "C05.get_Eband.weighted_trace", sym_Eband, nat_Eband, ["eminus.energies:get_Eband", f"{dft}:H"], N_ + ("trace-eigs",),
          "get_Eband = sum_k wk sum_spin tr(Y^H H Y)"),
         ("C01", "C01.get_grad.span_orthogonal", sym_grad_span_orthogonal, nat_grad_span, [f"{dft}:get_grad", "eminus.operators:O"],
